@@ -31,16 +31,26 @@ def ddmin(ops, test, max_tests=400):
     return cur, tests
 
 
+def _same(a, b):
+    return {k: v for k, v in a.items() if k != "c"} == {k: v for k, v in b.items() if k != "c"}
+
+
 def shrink_fields(ops, test, candidates, max_tests=200):
-    """Per-op argument reduction.  candidates(op) yields simpler variants of one op."""
+    """Per-op argument reduction.  candidates(op) yields simpler variants of one op; the same
+    simplification is applied to every identical op (so that call pairs stay pairs)."""
     tests = 0
     cur = list(ops)
     for i in range(len(cur)):
         progress = True
         while progress and tests < max_tests:
             progress = False
-            for simpler in candidates(cur[i]):
-                cand = cur[:i] + [simpler] + cur[i + 1:]
+            group = [j for j in range(len(cur)) if _same(cur[j], cur[i])]
+            variants = list(candidates(cur[i]))
+            for vi in range(len(variants)):
+                cand = list(cur)
+                for j in group:
+                    vs = list(candidates(cur[j]))
+                    cand[j] = vs[vi] if vi < len(vs) else cur[j]
                 tests += 1
                 if test(cand):
                     cur = cand
